@@ -208,6 +208,7 @@ namespace OpenMEEG {
 
     inline Vector FastSparseMatrix::operator * (const Vector &v) const
     {
+        om_assert(m_ncol==v.nlin());
         Vector result(m_nlin); result.set(0);
         double *pt_result=&result(0);
         Vector *_v=(Vector *)&v;
